@@ -316,6 +316,16 @@ func (g *G) design() {
 					ok = false
 				}
 			}
+			if ok && g.p.Recursive {
+				// (the gRPC generators do not terminate on recursive types: open finding)
+				probe := &m.Design{Types: d.Types, Services: []*m.Service{{Name: s.Name, Methods: nil}}}
+				for _, meth := range s.Methods {
+					probe.Services[0].Methods = append(probe.Services[0].Methods, &m.Method{Name: meth.Name, Payload: meth.Payload, Result: meth.Result, GRPC: &m.GRPCEndpoint{}})
+				}
+				if hasGRPCRecursiveType(probe) && g.avoid("C01-gen-hangs-grpc-recursive-type") {
+					ok = false
+				}
+			}
 			if !ok {
 				continue
 			}
@@ -968,8 +978,12 @@ func (g *G) setDefault(a *m.Attr) {
 		// other libyaml descendants) cannot read back although it is valid
 		// YAML: outside the generated domain. A leading newline is dropped by
 		// the YAML rendering (open finding).
-		if v.S[0] == '\t' {
-			v.S = "x" + v.S[1:]
+		// (also when spaces precede the tab: " \tZ\n…")
+		for i := 0; i < len(v.S) && (v.S[i] == ' ' || v.S[i] == '\t'); i++ {
+			if v.S[i] == '\t' {
+				v.S = v.S[:i] + "x" + v.S[i+1:]
+				break
+			}
 		}
 		if v.S[0] == '\n' && g.avoid("C07-yaml-drops-leading-newline-in-description") {
 			v.S = "x" + v.S[1:]
